@@ -186,7 +186,7 @@ func (g *CmdGen) Next() Cmd {
 	if g.exists[svc] {
 		kinds = append(kinds, "deploy", "rollout-deploy", "rollout-deploy", "rollout-set", "rollout-stop", "pause", "stop", "resume", "remove")
 		if g.rollout[svc] {
-			kinds = append(kinds, "rollout-set", "rollout-set")
+			kinds = append(kinds, "rollout-set", "rollout-set", "rollout-set", "rollout-set")
 		}
 	}
 	k := pick(rng, kinds)
@@ -198,9 +198,9 @@ func (g *CmdGen) Next() Cmd {
 		g.rollout[svc] = true
 		return Cmd{Kind: k, Svc: svc, Targets: g.targets(svc, "r"), DeployTO: 5 * time.Second, DrainTO: time.Second}
 	case "rollout-set":
-		c := Cmd{Kind: k, Svc: svc, Pct: pick(rng, []int{0, 10, 50, 90, 100})}
-		if rng.IntN(2) == 0 {
-			c.Allow = []string{pick(rng, cfgCookies), "zz"}
+		c := Cmd{Kind: k, Svc: svc, Pct: pick(rng, []int{0, 0, 10, 50, 90, 100})}
+		if rng.IntN(3) != 0 {
+			c.Allow = []string{pick(rng, cfgCookies), pick(rng, cfgCookies), "zz"}
 		}
 		return c
 	case "pause":
